@@ -30,15 +30,19 @@ from vf.common import REPO, Check, HarnessError, Violation, require
 from vf.strategies import CRS_POOL, SINU_PROJ, affines, mk_affine, mk_crs_spec, simple_tag
 
 RULE = (
-    "Hypothesis-generated end-to-end writes: shape sides from {1, 2-15 (narrower than a tile), 16-64, 65-400, "
-    "2^k and 2^k+-1}, axis YX / YXS(1-4) / SYX(1-3), dtype u1,i1,u2,i2,u4,i4,i8,u8,f4,f8, blocksize Unset / int / list "
-    "of 1-3 ints or (y,x) pairs (multiples of 16 or not), every lossless codec that tifffile+imagecodecs encode and "
-    "GDAL decodes in this image (deflate, adobe_deflate, zstd, lzw, lzma, packbits, lerc, lerc_deflate, lerc_zstd) with "
-    "the predictors the codec admits, nodata None/0/in-range/NaN, source chunking single/regular/tile-aligned/irregular, "
-    "spill_sz default/0/1..64k, writes_per_chunk 1-8, stats on/off/int, bigtiff on/off, schedule = single-threaded "
-    "random topological order (seed in the case) / threads(2,4,8) / dask default order; pixel content index ramp, "
-    "random, blocky or constant with nodata/NaN holes. Oracles: rasterio decode, tifffile decode, raw tag layout. "
-    "Non-trivial: image not a multiple of the level-0 tile, or >=1 overview, or >1 sample; distinct = distinct case."
+    "Hypothesis-generated end-to-end writes (configuration = deterministic function of Hypothesis-drawn seed + "
+    "geo-referencing, with explicit class weights): shape sides from {1, 2-15 (narrower than a tile), 16-64, 65-400 "
+    "(640 thorough), 2^k and 2^k+-1, exact tile multiples, thin 1-6 x 40-400 strips}, axis YX / YXS(1-4) / SYX(1-3) "
+    "incl. shapes whose axis order is ambiguous, dtype u1,i1,u2,i2,u4,i4,i8,u8,f4,f8, blocksize Unset / int / list of "
+    "1-3 ints or (y,x) pairs (multiples of 16 or not), every lossless codec that tifffile+imagecodecs encode and GDAL "
+    "decodes in this image (deflate, adobe_deflate, zstd, lzw, lzma, packbits, lerc, lerc_deflate, lerc_zstd) with the "
+    "predictors the codec admits, nodata None/0/in-range/NaN, source chunking single / regular / tile-aligned / "
+    "irregular / irregular-with-largest-chunk==tile, spill_sz default/0/1..64k, writes_per_chunk 1-8, stats "
+    "on/off/int, bigtiff on/off, schedule = single-threaded random topological order (seed in the case) / "
+    "threads(2,4,8) / dask default order; pixel content index ramp, random, blocky or constant with nodata/NaN holes; "
+    "GeoBox any sign/non-square/rotated/sheared affine (exact dyadic and general family) in 9 CRSs. Oracles: rasterio "
+    "decode, tifffile decode, raw tag layout; plus header-only layout rule for shapes up to 6000 px. Non-trivial: image "
+    "not a multiple of the level-0 tile, or >=1 overview, or >1 sample; distinct = distinct case."
 )
 ASSUMPTIONS = [
     "tifffile's tag parser and rasterio/GDAL are trusted as independent TIFF readers",
@@ -194,6 +198,14 @@ def _cuts(R, n, kind, tile):
     """chunk tuple along an axis of length n."""
     if kind == "single" or n == 1:
         return [n]
+    if kind == "tilemax":
+        # what slicing a tile-chunked array gives: a short first chunk, then full tiles -- irregular, but the largest
+        # chunk equals the tile
+        if n < tile + 1:
+            return [n]
+        first = R.randint(1, min(tile - 1, n - tile))
+        rest = n - first
+        return [first] + [tile] * (rest // tile) + ([rest % tile] if rest % tile else [])
     if kind == "tile":
         c = max(1, min(tile, n))
     elif kind == "regular":
@@ -332,7 +344,7 @@ def gen_case(R, focus=None, max_side=400, max_tiles=260):
         blocksize = bl[0] if isinstance(blocksize, int) else bl
 
     # source chunking
-    ck = _w(R, [(2, "single"), (3, "regular"), (2, "tile"), (3, "irregular")])
+    ck = _w(R, [(2, "single"), (3, "regular"), (2, "tile"), (3, "irregular"), (2, "tilemax")])
     t0 = _norm_block(([blocksize] if isinstance(blocksize, int) else blocksize)[0]) if blocksize is not None else (64, 64)
     chunks = {"y": _cuts(R, H, ck, t0[0]), "x": _cuts(R, W, ck, t0[1])}
     if blocksize is None:
@@ -1002,7 +1014,7 @@ def layout_checks(w, case):
                 require(got.shape == want.shape and bool(_eq(got, want).all()), "IFD 0 tile %d (plane %d, row %d, col %d): bytes [%d,%d) decode to other pixels than that tile's", i, s, ty, tx, o, o + c)
 
 
-_READER_LIBS = tuple(os.sep + name + os.sep for name in ("rasterio", "tifffile", "imagecodecs"))
+_READER_LIBS = tuple(name + os.sep for name in ("rasterio", "tifffile", "imagecodecs"))  # Cython frames are relative paths
 
 
 def _guarded(body, *args):
@@ -1161,6 +1173,14 @@ def _k_pad_whole_tile(sub, case, msg):
     return -(-Hp // ty) > -(-H // ty) or -(-Wp // tx) > -(-W // tx)
 
 
+def _k_irregular_not_rechunked(sub, case, msg):
+    """D27: irregular source chunks whose largest chunk equals the level-0 tile are not rechunked."""
+    ch = case["chunks"]
+    irregular = any(len(set(c[:-1])) > 1 or (len(c) > 1 and c[-1] > c[0]) for c in (ch["y"], ch["x"]))
+    t0 = _norm_block(_block_list(case)[0])
+    return irregular and _chunksize(case) == t0 and "differ" in msg
+
+
 def build(chk: Check) -> None:
     _codecs()
     big = chk.tier == "thorough"
@@ -1176,3 +1196,4 @@ def build(chk: Check) -> None:
     chk.known("D24", _k_axis_guess)
     chk.known("D25", _k_default_block0)
     chk.known("D26", _k_pad_whole_tile)
+    chk.known("D27", _k_irregular_not_rechunked)
